@@ -12,8 +12,8 @@ import ast
 
 from ..model import AnalysisError, unparse
 from ..report import RuleResult
-from ._c13_sem import (NP_ORDERING, ORDERING, PathFacts, call_name, ex, is_none, is_reducer, local_defs, mentions, names_from, prepare,
-                       taint, taint_of)
+from ._c13_sem import (NP_ORDERING, ORDERING, PathFacts, call_name, ex, is_none, is_reducer, mentions, names_from, prepare, taint,
+                       taint_of)
 
 # no per-element selection: the four corners are kept or dropped together (not among the object kinds C13 enumerates)
 WHOLE_OBJECT = {"GeoImage": "image corners are selected all-or-nothing; `inverse` has no per-element meaning"}
@@ -36,6 +36,39 @@ def _is_call_to(p, mod, call, target) -> bool:
     if r is not None:
         return r[0] == "func" and r[1] is target
     return isinstance(call.func, ast.Name) and call.func.id == target.name
+
+
+def _view(ctx, fn):
+    """ctx.view(fn), after (1) table dispatch is written back as an if / elif chain (_c13_tables) and (2) the calls to the two
+    anchor functions are spelled by their own names: the normaliser keeps a call
+    un-expanded when a rule names the called name, so `from ..utils import mask_by_extent as pick` / `utils.mask_by_extent`
+    would otherwise have the predicate's body expanded into the override and the delegation could not be seen."""
+    import copy
+    from ..model import FuncInfo
+
+    key = ("c13-view", id(fn.node))
+    if key in ctx.cache:
+        return ctx.cache[key][1]
+    p = ctx.p
+    utils = p.module("shared/utils.py")
+    anchors = [f for f in (utils.functions.get("mask_by_extent"), utils.functions.get("box_intersect")) if f is not None]
+    node, renamed = copy.deepcopy(fn.node), False
+    for c in ast.walk(node):
+        if isinstance(c, ast.Call) and not (isinstance(c.func, ast.Name) and c.func.id in [a.name for a in anchors]):
+            r = p.resolve_expr(fn.module, c.func)
+            if r and r[0] == "func" and any(r[1] is a for a in anchors):
+                c.func = ast.copy_location(ast.Name(id=r[1].name, ctx=ast.Load()), c.func)
+                renamed = True
+    from ._c13_tables import Tables
+
+    tables = Tables(p, fn)  # dispatch through a dict of callables, written back as the if / elif chain it stands for
+    chained = tables.rewrite(node)
+    if tables.changed:
+        node, renamed = chained, True
+    src = FuncInfo(name=fn.name, module=fn.module, node=node, cls=fn.cls, kind=fn.kind, prop=fn.prop) if renamed else fn
+    v = ctx.view(src)
+    ctx.cache[key] = (src, v)  # keeps the renamed copy alive (views are cached by node identity)
+    return v
 
 
 def _mask_source(p, fn, call, pred):
@@ -91,6 +124,20 @@ def _is_param(e, name, fn_node, defs) -> bool:
     return isinstance(x, ast.Name) and x.id == name
 
 
+def _forwards_flag(e, name, pf, at) -> bool:
+    """The argument `e` carries the caller's flag `name`: the parameter itself (aliases, bool()), or a literal True / False
+    at a place where every path has already established that the flag has that truth value (`if inverse: return ...`
+    followed by `f(..., inverse=False)`).  `at` is the call the argument belongs to."""
+    if _is_param(e, name, pf.node, pf.defs):
+        return True
+    if e is None:
+        return False
+    x = ex(e, pf.node, pf.defs)
+    if isinstance(x, ast.Constant) and isinstance(x.value, bool):
+        return pf.known_truth(pf.around(at), name) in (x.value, "dead")
+    return False
+
+
 def _self_rooted(e, self_name) -> bool:
     """`self.a.b`, `self.a[i]`, `getattr(self.a, "b", None)`: state of the object, not an argument of the call."""
     if isinstance(e, ast.Call) and isinstance(e.func, ast.Name) and e.func.id == "getattr" and len(e.args) >= 2 and isinstance(e.args[1], ast.Constant):
@@ -134,7 +181,7 @@ class _Override:
 
     def forwards_inverse(self, call) -> bool:
         slot = _mask_source(self.p, self.fn, call, self.pred)
-        return _is_param(_argument(call, "inverse", slot, self.node, self.defs), self.inv_name, self.node, self.defs)
+        return _forwards_flag(_argument(call, "inverse", slot, self.node, self.defs), self.inv_name, self.pf, call)
 
     # ---- accepted reasons for returning nothing
     def _literal_reason(self, node, pol):
@@ -179,7 +226,7 @@ class _Override:
             return isinstance(e, ast.Attribute) and e.attr == "association" and _self_rooted(e, self.self_name)
 
         def members(e):
-            es = e.elts if isinstance(e, (ast.Tuple, ast.List, ast.Set)) else [e]
+            es = e.elts if isinstance(e, (ast.Tuple, ast.List, ast.Set)) else (e.keys if isinstance(e, ast.Dict) else [e])
             if all(isinstance(x, ast.Attribute) and x.attr.isupper() for x in es):
                 return {x.attr for x in es}
             return set()
@@ -192,6 +239,8 @@ class _Override:
 
     def none_reason(self, facts):
         """Why returning None under `facts` (clauses holding on every path to the return) is accepted, or None."""
+        if frozenset() in facts:
+            return "unreachable"
         for clause in facts:
             rs = [self._literal_reason(*self.pf.literal(lit)) for lit in clause]
             if rs and all(rs):
@@ -223,7 +272,7 @@ def rule_deleg(ctx) -> RuleResult:
     for ci in p.classes:
         if ci.synthetic or "mask_by_extent" not in ci.methods:
             continue
-        fn = ctx.view(ci.methods["mask_by_extent"])
+        fn = _view(ctx, ci.methods["mask_by_extent"])
         body = [s for s in fn.node.body if not (isinstance(s, ast.Expr) and isinstance(s.value, ast.Constant))]
         ident = f"{ci.name}.mask_by_extent"
         if not body:
@@ -533,9 +582,10 @@ def rule_fwd(ctx) -> RuleResult:
         params = fn0.params + [a.arg for a in fn0.node.args.kwonlyargs]
         if "inverse" not in params or "extent" not in params:
             continue
-        fn = ctx.view(fn0)
-        node = fn.node
-        defs = local_defs(node)
+        fn = _view(ctx, fn0)
+        pf = PathFacts(fn.node)
+        node, defs = pf.node, pf.defs
+        seen_sites = set()
         for c in ast.walk(node):
             if not isinstance(c, ast.Call):
                 continue
@@ -556,9 +606,12 @@ def rule_fwd(ctx) -> RuleResult:
                     ext_i = None if ext_i is None else ext_i + 1
                     inv_i = None if inv_i is None else inv_i + 1
             ext_ok = _is_param(_argument(c, "extent", ext_i, node, defs), "extent", node, defs) or any(_is_param(a, "extent", node, defs) for a in c.args)
-            inv_ok = _is_param(_argument(c, "inverse", inv_i, node, defs), "inverse", node, defs)
+            inv_ok = _forwards_flag(_argument(c, "inverse", inv_i, node, defs), "inverse", pf, c)
             ok = ext_ok and inv_ok
-            res.inst(f"{fn.qualname}:{c.lineno} {unparse(c.func)}(...)", nontrivial=True, ok=ok)
+            site = (unparse(c), ok)
+            if site not in seen_sites:  # alias-expanded tests and duplicated exits hold copies of the calls they mention
+                seen_sites.add(site)
+                res.inst(f"{fn.qualname}:{c.lineno} {unparse(c.func)}(...)", nontrivial=True, ok=ok)
             if not ok:
                 what = "inverse" if not inv_ok else "extent"
                 callee = nm if is_pred or not isinstance(c.func, ast.Attribute) else f"<receiver>.{nm}"
@@ -576,6 +629,10 @@ def rule_fwd(ctx) -> RuleResult:
             for c in copies:
                 mv = _argument(c, "mask", None, node, defs)
                 ok = any(selecting(x) or (isinstance(x, ast.Name) and x.id in derived) for x in ast.walk(mv))
+                site = (unparse(c), ok)
+                if site in seen_sites and ok:
+                    continue
+                seen_sites.add(site)
                 res.inst(f"{fn.qualname}:{c.lineno} copy(mask=<computed from mask_by_extent>)" if ok else f"{fn.qualname}:{c.lineno} copy(mask=<other>)",
                          nontrivial=True, ok=ok)
                 if not ok:
@@ -603,7 +660,7 @@ def rule_orphan(ctx) -> RuleResult:
     if fn0 is None:
         raise AnalysisError("anchor CellObject.mask_by_extent not found")
     pred = _predicate(p)
-    fn = ctx.view(fn0)
+    fn = _view(ctx, fn0)
     node, defs = prepare(fn.node)
     sn = fn.self_name or "self"
     cells_txt = f"{sn}.cells"
